@@ -1,4 +1,5 @@
 import CardVerif.Props.C06
+import CardVerif.Props.C06b
 /-! # Axiom audit for C06 -/
 #print axioms CardVerif.C06.bestKey_max
 #print axioms CardVerif.C06.omahaHands_spec
@@ -9,3 +10,6 @@ import CardVerif.Props.C06
 #print axioms CardVerif.C06.holdem_eq_spec
 #print axioms CardVerif.C06.holdem_bad_sizes
 #print axioms CardVerif.C06.omaha_fast_bad_sizes
+#print axioms CardVerif.C06.omaha_fast_eq_spec
+#print axioms CardVerif.C06.omaha_fast_eq_brute
+#print axioms CardVerif.C06.omaha_fast_sym
